@@ -29,17 +29,25 @@ if __name__ == "__main__":
     root, pat = sys.argv[1], sys.argv[2]
     diffs = sorted(glob.glob(str(Path(root) / pat)))
     bad = 0
-    with ThreadPoolExecutor(max_workers=3) as ex:
+    known_residual = 0
+    from .report import VERIF
+    rfile = VERIF / "refactorings" / "RESIDUAL.json"
+    residual = {d["diff"] for d in json.loads(rfile.read_text())["residual"]} if rfile.exists() else set()
+    with ThreadPoolExecutor(max_workers=int(__import__("os").environ.get("SA_EVAL_JOBS", "3"))) as ex:
         for diff, out in ex.map(one, diffs):
             name = "/".join(Path(diff).parts[-3:])
             if not out:
                 print(f"[silent ] {name}")
             else:
                 bad += 1
+                if Path(diff).name in residual and str(VERIF) in str(Path(diff).resolve()):
+                    known_residual += 1
+                    print(f"[RESIDUAL] {name}   (documented in refactorings/RESIDUAL.json)")
+                    continue
                 print(f"[ALARM  ] {name}")
                 for p, v in out.items() if "error" not in out else []:
                     for l in v["lines"][:2]:
                         print(f"      {p} exit={v['exit']} {l[:230]}")
                 if "error" in out:
                     print("      ", out["error"])
-    print(f"{len(diffs)} refactorings, {bad} with alarms/undecided")
+    print(f"{len(diffs)} refactorings, {bad} with alarms/undecided ({known_residual} of them documented residuals)")
